@@ -90,7 +90,7 @@ func checkC11(ctx *Ctx, r *Report, tier string) {
 		}
 	}
 	r.Counts["render_implementers"] = nR
-	r.floor("B3", 5)
+	r.floor("B3", 3)
 	r.expectControl("B3", "verifCtlRendererNoClose")
 
 	// B4
@@ -104,7 +104,7 @@ func checkC11(ctx *Ctx, r *Report, tier string) {
 			ruleSinkOrder(ctx, r, "B4", fn, sc)
 		}
 	}
-	r.floor("B4", 15)
+	r.floor("B4", 6)
 	r.expectControl("B4", "verifCtlToWaitBeforeClose")
 
 	// B5
@@ -127,7 +127,7 @@ func checkC11(ctx *Ctx, r *Report, tier string) {
 		ruleConsumerLoop(ctx, r, gs, loops)
 	}
 	r.Counts["sink_goroutines"] = ns
-	r.floor("B5", 5*2)
+	r.floor("B5", 4)
 	r.expectControl("B5", "verifCtlSinkSkipsFirst")
 }
 
@@ -502,8 +502,7 @@ func ruleSinkOrder(ctx *Ctx, r *Report, rule string, fn *ssa.Function, sc sinkCr
 	if sc.ch == nil {
 		return
 	}
-	callee := sc.call.Call.StaticCallee()
-	key := fmt.Sprintf("%s|%s", shortFn(fn), callee.Name())
+	key := fmt.Sprintf("%s|%s", shortFn(fn), sinkCalleeName(sc))
 	why := "the sink has consumed everything only then"
 	if rule == "G5" {
 		why = "the file is complete only then"
@@ -708,6 +707,14 @@ func ruleConsumerLoop(ctx *Ctx, r *Report, gs goSite, loops []recvOp) {
 		r.check("B5", gs.key+"|ranges-over-whole-batch", gs.instr.Pos(), false, "received batch is not used")
 		return
 	}
+	consumerElementLoop(ctx, r, gs, fn, batch, &l, 0)
+}
+
+// consumerElementLoop: fn visits every element of `batch` in order and uses each one
+// unconditionally. The batch may be handed whole to a module helper that does so
+// (d.segments(ls)); then the helper's loop over its parameter is examined. outer is the
+// receive loop of the goroutine (nil inside a helper).
+func consumerElementLoop(ctx *Ctx, r *Report, gs goSite, fn *ssa.Function, batch ssa.Value, outer *recvOp, depth int) {
 	// the range loop over batch: phi [-1, phi+1], cmp phi+1 < len(batch)
 	var idx ssa.Value // the element index: phi+1 of a range loop, or the phi of `for i := 0; i < len(batch); i++`
 	var hdr *ssa.BasicBlock
@@ -763,7 +770,36 @@ func ruleConsumerLoop(ctx *Ctx, r *Report, gs goSite, loops []recvOp) {
 			idx, hdr = cand, b
 		}
 	}
-	r.check("B5", gs.key+"|ranges-over-whole-batch", gs.instr.Pos(), idx != nil, "the sink must `range` over the received batch itself (index from 0 to len-1 in steps of 1, ascending)")
+	if idx == nil && depth < 2 {
+		// delegation: the whole batch goes to a helper, unconditionally
+		for _, ref := range *batch.Referrers() {
+			call, ok := ref.(*ssa.Call)
+			if !ok {
+				continue
+			}
+			h := call.Call.StaticCallee()
+			if h == nil || !inModule(h) || len(h.Blocks) == 0 {
+				continue
+			}
+			uncond := true
+			for _, g := range branchGuards(call.Block()) {
+				if outer != nil && !outer.body.Dominates(g.at) {
+					continue
+				}
+				if !isErrorCond(g.cond) {
+					uncond = false
+				}
+			}
+			args := call.Call.Args
+			for i, a := range args {
+				if a == batch && i < len(h.Params) && uncond {
+					consumerElementLoop(ctx, r, gs, h, h.Params[i], nil, depth+1)
+					return
+				}
+			}
+		}
+	}
+	r.check("B5", gs.key+"|ranges-over-whole-batch", gs.instr.Pos(), idx != nil, "the sink must `range` over the received batch itself (index from 0 to len-1 in steps of 1, ascending), directly or in a helper it hands the batch to")
 	if idx == nil {
 		return
 	}
@@ -834,6 +870,11 @@ func ruleConsumerLoop(ctx *Ctx, r *Report, gs goSite, loops []recvOp) {
 		}
 	}
 	// paths through the outer loop that bypass the inner loop must be error gated
+	if outer == nil {
+		r.check("B5", gs.key+"|every-element-used-unconditionally", gs.instr.Pos(), okUse, "each element of each batch reaches the sink; only error flags may gate it. "+detail)
+		return
+	}
+	l := *outer
 	outerBody := l.body
 	seen := map[*ssa.BasicBlock]bool{}
 	var bypass func(b *ssa.BasicBlock) bool
